@@ -113,6 +113,55 @@ func (c *Ctx) pairCases(s, e ssa.Value, acc []Lit, pins pinMap, depth int) []pai
 			}
 		}
 	}
+	// one of the two is what a product helper answers (`end = scopeEndAfterComment(file, comment)`): one case per
+	// return of the helper, under its conditions, in the context of this call
+	for _, isEnd := range []bool{true, false} {
+		v := s
+		if isEnd {
+			v = e
+		}
+		call, ok := v.(*ssa.Call)
+		if !ok {
+			continue
+		}
+		callee := call.Call.StaticCallee()
+		if callee == nil || !P.IsProductFunc(callee) || len(callee.Blocks) == 0 || P.isAnchor(callee) || pins[callee] != nil || callee.Signature.Results().Len() != 1 {
+			continue
+		}
+		nRet := 0
+		allInstrs(callee, func(_ *ssa.BasicBlock, ins ssa.Instruction) {
+			if _, ok := ins.(*ssa.Return); ok {
+				nRet++
+			}
+		})
+		if nRet < 2 {
+			continue
+		}
+		np := pinMap{}
+		for f, cs := range pins {
+			np[f] = cs
+		}
+		np[callee] = call
+		var out []pairCase
+		allInstrs(callee, func(b *ssa.BasicBlock, ins ssa.Instruction) {
+			r, ok := ins.(*ssa.Return)
+			if !ok || len(r.Results) != 1 {
+				return
+			}
+			var g []Lit
+			P.PinnedAll(np, func() { g = P.BlockGuards(b) })
+			ns, ne := s, e
+			if isEnd {
+				ne = r.Results[0]
+			} else {
+				ns = r.Results[0]
+			}
+			out = append(out, c.pairCases(ns, ne, append(append([]Lit{}, acc...), g...), np, depth+1)...)
+		})
+		if len(out) > 0 {
+			return out
+		}
+	}
 	return leaf
 }
 
